@@ -19,6 +19,8 @@ func (e *Engine) runNested(fn *ssa.Function, args []Value) (res Value, ok bool) 
 	saveMark, savePS, saveTop, saveFr, saveSTh := e.stepMark, e.stepPS, e.stepTop, e.stepFr, e.stepTh
 	savePre, savePreUsed, saveSeq, savePend := e.pre, e.preUsed, e.decSeq, e.pendingAdv
 	saveDone, saveOutcome := e.done, e.outcome
+	saveRace := e.raceOn
+	e.raceOn = false // a nested run (package initialisation) is single-threaded
 	th := &Thread{id: -1}
 	e.th = th
 	e.threads = []*Thread{th}
@@ -32,6 +34,7 @@ func (e *Engine) runNested(fn *ssa.Function, args []Value) (res Value, ok bool) 
 			}
 		}
 		e.th, e.threads = saveTh, saveThreads
+		e.raceOn = saveRace
 		e.stepMark, e.stepPS, e.stepTop, e.stepFr, e.stepTh = saveMark, savePS, saveTop, saveFr, saveSTh
 		e.pre, e.preUsed, e.decSeq, e.pendingAdv = savePre, savePreUsed, saveSeq, savePend
 		out := e.outcome
